@@ -25,7 +25,8 @@ fn resume_option_p() -> impl Parser<StringView, Output = ResumeOption, Error = P
 }
 
 fn blank_resume() -> impl Parser<StringView, Output = ResumeOption, Error = ParserError> {
-    peek_eof_or_statement_separator().map(|_| ResumeOption::Bare)
+    // blanks may follow, as after any other statement: `RESUME ' comment`, `RESUME : PRINT 1`
+    lead_opt_ws(peek_eof_or_statement_separator()).map(|_| ResumeOption::Bare)
 }
 
 fn resume_next() -> impl Parser<StringView, Output = ResumeOption, Error = ParserError> {
